@@ -71,10 +71,10 @@ type Term struct {
 
 type Mask [4]uint64
 
-func (m *Mask) Has(v int) bool  { return m[v>>6]&(1<<(uint(v)&63)) != 0 }
-func (m *Mask) Set(v int)       { m[v>>6] |= 1 << (uint(v) & 63) }
-func (m Mask) And(o Mask) Mask  { return Mask{m[0] & o[0], m[1] & o[1], m[2] & o[2], m[3] & o[3]} }
-func (m Mask) Or(o Mask) Mask   { return Mask{m[0] | o[0], m[1] | o[1], m[2] | o[2], m[3] | o[3]} }
+func (m *Mask) Has(v int) bool { return m[v>>6]&(1<<(uint(v)&63)) != 0 }
+func (m *Mask) Set(v int)      { m[v>>6] |= 1 << (uint(v) & 63) }
+func (m Mask) And(o Mask) Mask { return Mask{m[0] & o[0], m[1] & o[1], m[2] & o[2], m[3] & o[3]} }
+func (m Mask) Or(o Mask) Mask  { return Mask{m[0] | o[0], m[1] | o[1], m[2] | o[2], m[3] | o[3]} }
 func (m Mask) AndNot(o Mask) Mask {
 	return Mask{m[0] &^ o[0], m[1] &^ o[1], m[2] &^ o[2], m[3] &^ o[3]}
 }
